@@ -3,6 +3,14 @@ import json, os
 V = os.path.dirname(os.path.dirname(os.path.abspath(__file__)))
 props = [json.loads(l) for l in open(os.path.join(V, "properties.jsonl"))]
 CLAIMED = {
+ "C04": dict(
+   text="Coq proof over the model of PackedEncoder (resolved layout trees, emission as a state machine with explicit reset) that every successful generate() yields pieces that start at bit 0 and tile the message without gaps or overlaps (layout_tiles, layout_inside), each piece carrying exactly the options of the signal block named like its own field and its declared byte order, and that the result of a call does not depend on the encoder's history (generate_history_independent, for all call sequences). The width clause is stated in full (layout_widths_statement) and refuted for enums whose packed size is not a power of two (known finding enum-width). Tie: histories of generate() calls on one real encoder, both unroll settings, compared piece by piece in Coq.",
+   note="Trusted: Coq kernel+vm_compute; name resolution is the model's; float log2 exact below 2^48; option values other than ints/7-bit strings abstracted.",
+   technique="Coq proof (induction over layout trees, step invariants) + history correspondence evaluated in Coq", ref="§5 C04"),
+ "C15": dict(
+   text="Coq proof that a stable sort by field id is invariant under any permutation of a list with distinct ids (sort_by_perm, via sortedness + permutation + key injectivity) and hence that resolution, the Python codec and the packed layout are identical for a schema and any declaration-permuted twin (resolve/py/layout_perm_invariant). Tie: twins run through the real Python codec, the real encoder, the DBC generator and the C generator; outputs must be identical and agree with the model.",
+   note="Trusted: as C01/C04; the C++ codecs are compared on twins in C03; DBC text and C sources compared verbatim on the implementation side.",
+   technique="Coq proof (permutation invariance of stable sort with distinct keys) + twin correspondence", ref="§5 C15"),
  "C01": dict(
    text="Coq proof, by induction over type trees (rty_ind2) with an arbitrary trailing bit string (= arbitrary cursor/alignment), that the model of the Python decoder inverts the model of the encoder for every schema, struct and in-range value whose signed leaves are not the minimum (py_roundtrip_partial), together with the exact characterisation of decode(encode v) for EVERY in-range value (py_roundtrip_characterised: signed minima come back as +2^(n-1)) and the refutation of the full statement by a witness (known finding signed-min). The model is tied to src/fcp/serde.py on every run: generated schemas go through the real parser, encode and decode run on the real codec and Coq compares both with the model.",
    note="Trusted: Coq kernel+vm_compute; _Buffer abstracted to the bit string written so far; struct.pack/unpack = identity on IEEE bit patterns; type-directed value embedding (harness/to_coq.py) and dict canonicalisation (Corr.Serde.canon); name resolution is the model's.",
